@@ -368,6 +368,7 @@ func codecSeqMain(args []string) int {
 	}
 	// reference: every call made alone, on fresh instances, before anything has failed in this process
 	ref := map[string][]byte{}
+	broken := map[string]string{}
 	for pass := 0; pass < 2; pass++ {
 		for i := range cat {
 			op := &cat[i]
@@ -379,8 +380,10 @@ func codecSeqMain(args []string) int {
 			case "ok", "hold", "keep":
 				out, err := csRun(op, in)
 				if err != nil {
-					fmt.Fprintf(os.Stderr, "codecseq: reference call %s failed: %v\n", op.Name, err)
-					return 2
+					// a call on valid input (it succeeds on the tree the catalogue was written for) fails when made
+					// alone, first thing in the process: reported as such; histories are judged without this call
+					broken[op.Name] = fmt.Sprintf("a call on valid input failed when made alone, before anything else in the process: %v", err)
+					continue
 				}
 				ref[op.Name] = append([]byte(nil), out...)
 				if op.Kind == "hold" {
@@ -413,6 +416,11 @@ func codecSeqMain(args []string) int {
 	rep := &Report{}
 	distinct := map[string]bool{}
 	sigs := map[string]bool{}
+	for name, why := range broken {
+		if want(byName[name].Props) {
+			rep.violate("codecseq|"+name+"|alone-error", name+": "+why, map[string]interface{}{"check": "codecseq", "history": []string{name}, "step": 1})
+		}
+	}
 	err := readNDJSON(*hist, func(line []byte) error {
 		var h struct {
 			H []struct {
@@ -468,6 +476,9 @@ func codecSeqMain(args []string) int {
 					bad(i, op, "no-error: the call was made to fail and returned no error")
 				}
 			case "ok", "hold", "keep":
+				if broken[op.Name] != "" {
+					break
+				}
 				if err != nil {
 					bad(i, op, fmt.Sprintf("error: a call that succeeds when made alone failed: %v", err))
 				} else if !bytes.Equal(out, ref[op.Name]) {
